@@ -683,6 +683,30 @@ def run(ctx) -> None:
            "every component is fully resolved (raw=False) inside a catch-all that records the failure" if ok else
            "components are not resolved with raw=False inside a recording catch-all: an undefined variable is not reported "
            "(or surfaces as another exception type)")
+    # what validate_component found for a component reaches the returned list on every path of the iteration (the '$import' pseudo-components
+    # apart): an early `continue` between the call and the merge drops a misspelt key or a mistyped option of exactly those components
+    # that take the early path (seed C11-14: components whose environment is 'none' / 'environment' / '')
+    vc_nodes = [n for n in c_cv.nodes if n.kind == "stmt" and isinstance(n.ast, ast.Assign) and isinstance(n.ast.value, ast.Call)
+                and last_attr(n.ast.value) == "validate_component" and any(n.ast is y for y in ast.walk(lp))]
+    ctx.require(bool(vc_nodes) and bool(for_nodes), "anchor missing: <errors> = FlowIR.validate_component(..) inside the validation loop")
+    for vn in vc_nodes:
+        errs = [t.id for t in vn.ast.targets if isinstance(t, ast.Name)]
+        merges = [n for n in c_cv.nodes if n.kind == "stmt" and n.ast is not None and any(
+            (isinstance(x, ast.Call) and last_attr(x) in ("extend", "append") and dotted(x.func.value) == OUTERR
+             and any(isinstance(y, ast.Name) and y.id in errs for a_ in x.args for y in ast.walk(a_)))
+            or (isinstance(x, ast.AugAssign) and isinstance(x.target, ast.Name) and x.target.id == OUTERR
+                and any(isinstance(y, ast.Name) and y.id in errs for y in ast.walk(x.value)))
+            for x in ast.walk(n.ast))]
+        starts = [m_ for (m_, lab) in vn.succ if lab not in ("exc", "except", "raise", "uncaught")]
+        back = c_cv.reach(starts, blocked=merges, blocked_edges=[(t.id, "T") for t in imp_tests],
+                          ignore_labels=("exc", "except", "raise", "uncaught"))
+        lost = for_nodes[0].id in back or c_cv.exit.id in back
+        ctx.ob("C11.R4-every-component-resolved", vn.ast, bool(merges) and not lost,
+               "the errors validate_component reports are merged into the returned list on every path of the iteration" if (merges and not lost) else
+               "an iteration can end without merging what validate_component reported (%s) into %s: for the components that take that path - e.g. "
+               "those whose command.environment is one of the built-in names - a misspelt option key, a mistyped option or an undeclared "
+               "reference is found and then dropped, and the workflow loads" % (", ".join(errs) or "its result", OUTERR),
+               construct="validate: validate_component's errors reach the returned list")
     rets = [r for r in source.walk_own(cv) if isinstance(r, ast.Return)]
     ok = len(rets) == 1 and isinstance(rets[0].value, ast.Name) and rets[0].value.id == OUTERR
     ctx.ob("C11.R4-every-component-resolved", rets[0] if rets else cv, ok, "validate returns the collected errors" if ok else "validate does not return out_errors")
